@@ -87,3 +87,73 @@ def specRun (k : Kind) (sfx : Str) (d : Dict D) : List (Op D) → Dict D
   | op :: ops => specRun k sfx (specStep k sfx d op) ops
 
 end CogentModel.DataStoreDict
+
+/-! ## name hygiene and history side conditions (directory store)
+
+The directory store derives file names from identifiers with `str.replace`, substring tests and
+`endswith`.  `hyg` is the (decidable, executable) statement that on the identifier set `ids`
+these string manipulations produce the names the specification intends, and that distinct
+records have distinct side-file names.  `safe` lists, operation by operation, the situations in
+which the code as it is departs from the dictionary model for reasons other than naming
+(each one is exhibited by a `_counter` theorem in `Props/C13.lean`). -/
+namespace CogentModel.DataStoreDict
+open CogentModel.KV
+open CogentModel.DataStore
+
+/-- listed name of the completed / not-completed record of `i` in a directory store -/
+abbrev cN (sfx i : Str) : Str := cName .directory sfx i
+abbrev ncN (i : Str) : Str := ncName .directory i
+/-- the md5 side file the store looks up for a member -/
+abbrev mdOf (sfx n : Str) : Str := md5Lookup sfx n
+
+def hygId (sfx i : Str) : Bool :=
+  decide (resolve sfx sfx i = ⟨cN sfx i, cN sfx i, cN sfx i, mdOf sfx (cN sfx i)⟩) &&
+  decide (resolve sfx sJson i = ⟨cN sfx i, ncN i, ncN i, mdOf sfx (ncN i)⟩) &&
+  decide (dropKey sfx i = ncN i) &&
+  decide (dropMd5 (ncN i) = mdOf sfx (ncN i)) &&
+  endsWith (cN sfx i) ('.' :: sfx) &&
+  endsWith (ncN i) ('.' :: sJson) &&
+  !startsWith (cN sfx i) ncPrefix &&
+  !startsWith (ncN i) ncPrefix
+
+def hygPair (cfg : Cfg) (sfx i j : Str) : Bool :=
+  (!dropMatch cfg (ncN i) (ncN j) || decide (ncN j = ncN i)) &&
+  (!decide (mdOf sfx (cN sfx i) = mdOf sfx (cN sfx j)) || decide (cN sfx i = cN sfx j)) &&
+  (!decide (mdOf sfx (ncN i) = mdOf sfx (ncN j)) || decide (ncN i = ncN j)) &&
+  (!decide (mdOf sfx (cN sfx i) = mdOf sfx (ncN j)) || decide (ncN i = ncN j))
+
+/-- name hygiene of an identifier set -/
+def hyg (cfg : Cfg) (sfx : Str) (ids : List Str) : Bool :=
+  ids.all (hygId sfx) && ids.all (fun i => ids.all (fun j => hygPair cfg sfx i j))
+
+variable {D : Type}
+
+/-- side conditions of one operation, evaluated on the dictionary state before it -/
+def safe (cfg : Cfg) (sfx : Str) (ids : List Str) (d : Dict D) : Op D → Bool
+  | .write i _ =>
+    ids.contains i &&
+    -- OVERWRITE mode does not rewrite an existing completed record (the code silently keeps the old one)
+    (d.mode != .w || !has d.completed (cN sfx i))
+  | .writeNc i _ =>
+    ids.contains i &&
+    -- no second not-completed record for the identifier (the code lists it twice; append overwrites)
+    !has d.notCompleted (ncN i) &&
+    -- OVERWRITE mode: no completed record of the identifier (they share one md5 side file)
+    (d.mode != .w || !has d.completed (cN sfx i)) &&
+    -- the not-completed file name is not a completed member's name (possible for suffix "json")
+    !has d.completed (ncN i)
+  | .writeLog _ _ => true
+  | .drop i =>
+    (i.isEmpty || ids.contains i) &&
+    -- the code as it is lets a read-only store drop records
+    (cfg.roDropChecked || d.mode != .r)
+  | .reopen _ => true
+  | .observe => true
+  | .unlock => true
+
+/-- every operation of the history is `safe` in the dictionary state it is applied to -/
+def safeHist (cfg : Cfg) (sfx : Str) (ids : List Str) : Dict D → List (Op D) → Bool
+  | _, [] => true
+  | d, op :: ops => safe cfg sfx ids d op && safeHist cfg sfx ids (specStep .directory sfx d op) ops
+
+end CogentModel.DataStoreDict
